@@ -10,4 +10,5 @@ Separate Extraction
   Anim.AnimEncModel.new_encoder Anim.AnimEncModel.run_frames Anim.AnimEncModel.close
   Anim.AnimEncModel.playback Anim.AnimEncModel.find_changed_rect Anim.AnimEncModel.snap_to_even
   Anim.AnimEncModel.sanitize_k Anim.AnimEncModel.quality_to_max_diff
-  Anim.AnimEncModel.pixels_similar Anim.AnimEncModel.lossless_px_ok Anim.AnimEncModel.lossy_px_ok.
+  Anim.AnimEncModel.pixels_similar Anim.AnimEncModel.lossless_px_ok Anim.AnimEncModel.lossy_px_ok
+  Anim.AnimEncModel.repaired.
